@@ -149,6 +149,7 @@ func Run(r *ev.Run) {
 	r.RequireAtLeast("owner_replies_equal_reference", 100)
 	r.RequireAtLeast("policy_fields_checked", 300)
 	r.RequireAtLeast("mixed_rows_checked", 20)
+	requireSequences(r)
 	if MySQLLayer != nil {
 		// the MySQL part: same oracles over the MySQL rig (switches the process-wide SQL dialect, so it runs after the PostgreSQL part)
 		MySQLLayer(r)
@@ -192,6 +193,8 @@ func session(r *ev.Run, rng *gen.Rand, sidx int) {
 			r.Distinct(fmt.Sprintf("owner|%s|oid=%v|%s|%s|%s", c.DataType, c.TypeID != 0, c.Kind, c.Envelope, policyOf(c)))
 		}
 	}
+	// protocol sequences (seq.go): the owner's statements parsed, described, bound and executed in separate cycles
+	runSequences(r, rng, w, ac, rc, t, history, sidx)
 	// readers that cannot reveal
 	for _, reader := range []string{c04.Other, c04.NoKeys} {
 		c, _, err := proxyrig.DialPG(w.Acras[reader].Port)
